@@ -17,7 +17,19 @@ pub fn exec(plan: &Plan, mode: Mode) -> Result<CaseReport, Failure> {
             return Err(f);
         }
     }
+    // the very first call: create_group with every presence pattern of the three image fields
+    // (also the odd ones: a key or a nonce without a hash), on either backend
+    let created = match create_shape(plan.ops.len() + plan.setup.members as usize * 7) {
+        Ok(c) => c,
+        Err(f) => {
+            set_last_trace(std::mem::take(&mut fin.world.trace));
+            return Err(f);
+        }
+    };
     let mut rep = base_report(&fin);
+    if let Some(c) = created {
+        rep.classes.push(c);
+    }
     rep.nontrivial = obs.nontrivial > 0;
     for (k, v) in &obs.paths {
         rep.classes.push(k.clone());
@@ -25,6 +37,34 @@ pub fn exec(plan: &Plan, mode: Mode) -> Result<CaseReport, Failure> {
     }
     *rep.counters.entry("mirror-checks".into()).or_insert(0) += obs.checks;
     Ok(rep)
+}
+
+fn create_shape(sel: usize) -> Result<Option<String>, Failure> {
+    use crate::on_mdk;
+    use crate::world::{BackendKind, Cfg, RollbackRecorder, open_client_mdk, relay_url, scratch_dir};
+    let kind = if sel & 8 != 0 { BackendKind::Sql } else { BackendKind::Mem };
+    let dir = scratch_dir("c08create");
+    let path = dir.0.join("creator.db");
+    let mdk = open_client_mdk(kind, Some(&path), &Cfg::default(), std::sync::Arc::new(RollbackRecorder::default())).map_err(|e| Failure::new("setup-failed", e))?;
+    let keys = nostr::Keys::generate();
+    let pk = keys.public_key();
+    let hash = (sel & 1 != 0).then_some([0x11u8; 32]);
+    let key = (sel & 2 != 0).then_some([0x22u8; 32]);
+    let nonce = (sel & 4 != 0).then_some([0x33u8; 12]);
+    let cfg = mdk_core::groups::NostrGroupConfigData::new("created".into(), "shape".into(), hash, key, nonce, vec![relay_url(0)], vec![pk]);
+    let Ok(res) = on_mdk!(&mdk, m => m.create_group(&pk, vec![], cfg)) else {
+        return Ok(None);
+    };
+    let gid = res.group.mls_group_id.clone();
+    let level = on_mdk!(&mdk, m => crate::fingerprint::group_level(m, &gid)).map_err(|e| Failure::new("group-does-not-load", e))?;
+    let Some(level) = level else { return Ok(None) };
+    if let Some(d) = crate::oracles::mirror_mismatch(&level) {
+        return Err(Failure::new(
+            "record-does-not-mirror-mls-state",
+            format!("right after create_group ({kind:?}; image hash {}, key {}, nonce {} given): {d}", hash.is_some(), key.is_some(), nonce.is_some()),
+        ));
+    }
+    Ok(Some(format!("create_group-image-fields-{}{}{}", hash.is_some() as u8, key.is_some() as u8, nonce.is_some() as u8)))
 }
 
 pub fn main(args: &Args) -> i32 {
